@@ -104,13 +104,20 @@ Space ==
     \cup (IF "mixed" \in Shapes THEN {And(<<a, Or(<<b, c>>)>>) : a \in Atoms, b \in Atoms, c \in Atoms}
                                        \cup {Or(<<a, And(<<b, c>>)>>) : a \in Atoms, b \in Atoms, c \in Atoms} ELSE {})
 
-VARIABLE f
-vars == <<f>>
-Init == f \in Space
-Next == UNCHANGED f
+\* The space is enumerated in two steps - first the leftmost atom / chain of the formula, then the formula - so that
+\* TLC's workers share the work: initial states (and the invariants on them) are handled by a single thread.
+RECURSIVE Left(_)
+Left(g) == CASE g.k \in {"and", "or"} -> Left(g.args[1]) [] g.k = "not" -> Left(g.a) [] OTHER -> g
+NoFormula == [k |-> "none"]
+
+VARIABLES seed, f
+vars == <<seed, f>>
+Init == seed \in {Left(x) : x \in Space} /\ f = NoFormula
+Next == \/ f = NoFormula /\ f' \in {x \in Space : Left(x) = seed} /\ UNCHANGED seed
+        \/ f # NoFormula /\ UNCHANGED vars
 Spec == Init /\ [][Next]_vars
 
-NegationCorrect == \A i \in 1..Len(Vals) : Eval(Negate(f), AsFun(Vals[i])) = ~Eval(f, AsFun(Vals[i]))
+NegationCorrect == f = NoFormula \/ \A i \in 1..Len(Vals) : Eval(Negate(f), AsFun(Vals[i])) = ~Eval(f, AsFun(Vals[i]))
 
-Dump == PrintT(<<"@@J", ToJson([f |-> f, t |-> Table(f)])>>)
+Dump == f = NoFormula \/ PrintT(<<"@@J", ToJson([f |-> f, t |-> Table(f)])>>)
 =============================================================================
